@@ -323,7 +323,11 @@ def run_check(mod, argv):
             bad = audit_sources()
             if bad:
                 breaks.append({"kind": "audit", "detail": bad})
-            if not breaks:
+            if not breaks and os.environ.get("VERIF_SKIP_COQCHK") == "1":
+                # for sweeps of the correspondence at thorough sizes only; never set by the registered commands
+                assumptions_info["coqchk"] = "skipped (VERIF_SKIP_COQCHK=1)"
+                ctx.notes.append("coqchk skipped on request (VERIF_SKIP_COQCHK=1)")
+            elif not breaks:
                 okc, detail = coqchk(ctx, mod.PID)
                 assumptions_info["coqchk"] = detail
                 if not okc:
